@@ -15,6 +15,7 @@ import (
 	"verifharness/ev"
 	"verifharness/gen"
 	"verifharness/lib"
+	"verifharness/memnet"
 	"verifharness/refcodec"
 	"verifharness/refdict"
 )
@@ -51,6 +52,7 @@ func opsSuite(t *testing.T, rec *ev.Rec) {
 		vis := ctx.Visible(h.App)
 		o := &gen.Opts{MaxDepth: 3, MaxAVPs: 3}
 		var trace []string
+		var lastWant []byte
 		steps := 1 + r.IntN(12)
 		for s := 0; s < steps; s++ {
 			def := vis[r.IntN(len(vis))]
@@ -161,8 +163,53 @@ func opsSuite(t *testing.T, rec *ev.Rec) {
 				return
 			}
 			c.Event("ops_steps_checked", 1)
+			lastWant = want
+		}
+		// the bytes that reach a transport which interrupts the emission: each attempt
+		// accepts part of what it is offered and reports a temporary error, within the
+		// retry budget; what arrived in total must be the reference image, once
+		if lastWant != nil {
+			fw := &faultyWriter{}
+			for k := r.IntN(4); k > 0; k-- {
+				fw.plan = append(fw.plan, r.IntN(len(lastWant)+1))
+			}
+			retries := uint(len(fw.plan) + r.IntN(2))
+			var nn int64
+			var err error
+			if p, bad := guard(func() { nn, err = m.WriteToWithRetry(fw, retries) }); bad {
+				c.Fail(ev.Sig{"op": "emit-interrupted", "how": "panic"}, lastWant, map[string]any{"accepted_per_attempt": fw.plan}, "WriteToWithRetry(retries=%d) panicked on a transport accepting %v bytes per interrupted attempt: %s", retries, fw.plan, p)
+				return
+			}
+			if err != nil || int(nn) != len(lastWant) || !bytes.Equal(fw.got, lastWant) {
+				c.Fail(ev.Sig{"op": "emit-interrupted", "how": "bytes"}, lastWant, map[string]any{"accepted_per_attempt": fw.plan, "arrived": ev.Hex(fw.got)},
+					"WriteToWithRetry(retries=%d) on a transport accepting %v bytes per interrupted attempt: n=%d err=%v, %d bytes arrived, first difference from the reference image at %d", retries, fw.plan, nn, err, len(fw.got), firstDiff(fw.got, lastWant))
+				return
+			}
+			c.Event("interrupted_emissions_checked", 1)
 		}
 	})
+}
+
+// faultyWriter accepts plan[i] bytes of the i-th attempt and reports a temporary
+// error; once the plan is used up it accepts everything.
+type faultyWriter struct {
+	plan []int
+	i    int
+	got  []byte
+}
+
+func (w *faultyWriter) Write(b []byte) (int, error) {
+	if w.i < len(w.plan) {
+		k := min(w.plan[w.i], len(b))
+		w.i++
+		w.got = append(w.got, b[:k]...)
+		if k == len(b) {
+			return k, nil
+		}
+		return k, &memnet.TempError{Msg: "temporary transport error"}
+	}
+	w.got = append(w.got, b...)
+	return len(b), nil
 }
 
 func randStr(r interface{ Uint32() uint32 }, n int) string {
